@@ -325,6 +325,71 @@ def ignoring (s : LocSection) : Bool :=
   | some v => isTrueString v
   | none => false
 
+/-! ### segment parameters of the location (`LocationMatcher.__init__`)
+
+The matcher keeps the location AS GIVEN (`,k=v` parameters of the last segment
+included) for matching, `{relpath}` and `appendpath`; the parameters are only
+looked at to find the branch name. -/
+
+/-- a blank other than ' ' (Rust's `trim` and Python's notion of blank differ on some of them) -/
+def isSpaceLoc (c : Char) : Bool :=
+  let n := c.toNat
+  (9 ≤ n && n ≤ 13) || (28 ≤ n && n ≤ 31) || n == 0x85 || n == 0xa0 || n == 0x1680 ||
+  (0x2000 ≤ n && n ≤ 0x200a) || n == 0x2028 || n == 0x2029 || n == 0x202f || n == 0x205f || n == 0x3000
+
+/-- `scheme://host/` and nothing more: `strip_trailing_slash` leaves it alone -/
+def isSchemeRoot (loc : Str) : Bool := !(schemeHost loc).isEmpty && loc == schemeHost loc ++ ['/']
+
+/-- `urlutils.strip_trailing_slash` -/
+def chopSlash (loc : Str) : Str := if isSchemeRoot loc then loc else dropOneTrailingSlash loc
+
+/-- Python `s.split(",")` -/
+def splitComma : Str → List Str
+  | [] => [[]]
+  | c :: s =>
+    if c == ',' then [] :: splitComma s
+    else
+      match splitComma s with
+      | p :: ps => (c :: p) :: ps
+      | [] => [[c]]
+
+def trimBlank (s : Str) : Str := ((s.dropWhile (· == ' ')).reverse.dropWhile (· == ' ')).reverse
+
+/-- `split_once('=')` with both halves trimmed -/
+def splitEq : Str → Option (Str × Str)
+  | [] => none
+  | c :: s => if c == '=' then some ([], s) else (splitEq s).map fun kv => (c :: kv.1, kv.2)
+
+inductive BranchRes where
+  | invalid               -- InvalidURL: a sub-segment without `=`
+  | outside               -- blanks other than ' ' in the segment, `%` or non-ASCII in the branch value
+  | noParam               -- no `branch` parameter: the branch name is the basename of the location
+  | fromParam (b : Str)
+  deriving DecidableEq, Repr
+
+def branchKey : Str := ['b', 'r', 'a', 'n', 'c', 'h']
+
+/-- `split_segment_parameters(location)[1].get("branch")`, un-escaped -/
+def segBranch (loc : Str) : BranchRes :=
+  let seg := lastSeg (chopSlash loc)
+  if seg.any (fun c => isSpaceLoc c) then .outside else
+  match splitComma seg with
+  | _ :: subs =>
+    match subs.mapM fun sub => (splitEq (trimBlank sub)).map fun kv => (trimBlank kv.1, trimBlank kv.2) with
+    | none => .invalid
+    | some kvs =>
+      match (kvs.reverse.find? fun kv => kv.1 == branchKey) with
+      | none => .noParam
+      | some kv => if kv.2.any (fun c => c == '%' || decide (127 < c.toNat)) then .outside else .fromParam kv.2
+  | [] => .noParam
+
+/-- the branch name a `LocationMatcher` hands to its sections (meaningful when
+`segBranch` is neither `invalid` — the constructor raises — nor `outside`) -/
+def branchOf (loc : Str) : Str :=
+  match segBranch loc with
+  | .fromParam b => b
+  | _ => urlBasename loc
+
 /-- `_get_matching_sections`: `(length, section)` — the no-name section first -/
 def matchingSections (noName : Option (List (Str × Str))) (secs : List PSec) (location : Str) :
     List (Nat × Str × LocSection) :=
@@ -332,7 +397,7 @@ def matchingSections (noName : Option (List (Str × Str))) (secs : List PSec) (l
     | some o => [(0, [], (⟨none, o, location, []⟩ : LocSection))]
     | none => []) ++
   (iterByParts secs location).map fun m =>
-    (m.2.2, m.1.id, (⟨some m.1.id, m.1.opts, m.2.1, urlBasename location⟩ : LocSection))
+    (m.2.2, m.1.id, (⟨some m.1.id, m.1.opts, m.2.1, branchOf location⟩ : LocSection))
 
 /-- the sorted candidates, most specific first -/
 def sortedSections (noName : Option (List (Str × Str))) (secs : List PSec) (location : Str) : List LocSection :=
